@@ -349,6 +349,12 @@ class ProgGen:
                 elif mn == 'jz':
                     page = a & ~0xff
                     st[2] = [num(max(self.gstart, min(self.gend, page + rng.choice([0, 1, 0x7f, 0xff]))))]
+                elif mn == 'jl12':
+                    page = a & ~0xfff
+                    tgt = page + rng.choice([0, 1, 0x7ff, 0xfff, 0x100])
+                    if rng.random() < 0.08:
+                        tgt = page + rng.choice([0x1000, 0x1fff, -1, 0x2345])      # another 4K page: must be rejected
+                    st[2] = [num(max(self.gstart, min(self.gend, tgt)))]
                 elif mn == 'setn':
                     st[2] = [num(rng.choice([0, 1, 7, 14, 15]))]
                 elif mn == 'bset':
@@ -369,7 +375,18 @@ class ProgGen:
         rng = self.rng
         kind = rng.choice(FAULTS)
         main = files[0]['stmts']
-        pos = rng.randrange(len(main) + 1)
+        # only at nesting depth 0: the implementation parses (and may reject) lines of unselected branches too,
+        # which the property does not speak about and the model does not mirror
+        depth = 0
+        tops = [0]
+        for i, st in enumerate(main):
+            if st[0] == 'if':
+                depth += 1
+            elif st[0] == 'endif':
+                depth -= 1
+            if depth == 0:
+                tops.append(i + 1)
+        pos = rng.choice(tops)
         if kind == 'undef_ref':
             main.insert(pos, ['data', 2, [('lab', rng.choice(['nosuch', '.nolocal', '_nofile']))]])
         elif kind == 'register_ref':
